@@ -85,13 +85,30 @@ func MockEnvStubs() map[string]exec.Stub {
 const mockShapeDep = `package q
 type T struct{}
 `
+
+// a second dependency with the SAME package name, reached only through an embedded interface of a
+// helper package, so that the source file has no alias for it (Appendix B of DESIGN.md)
+const mockShapeDep2 = `package q
+type T struct{}
+`
+const mockShapeHelper = `package h
+import "src.example/r/q"
+type J interface { Zed(x q.T) }
+`
 const mockShapeSrc = `package src
-import "src.example/p/q"
-type I1 interface { M0(); M1(a q.T, b int) error }
+import (
+	"src.example/p/q"
+	"src.example/h"
+)
+type I1 interface { M0(); M1(a q.T, b int) error; M2(first q.T, rest ...q.T) }
 type I2 interface {}
 type G[T any] interface { Get(k T) T }
 type S struct{}
 type L interface { Do(x S) }
+type K interface { h.J }
+type AG = G[int]
+type Cmp[T any] interface { Less(o T) bool }
+type SO[T Cmp[T]] interface { Min() T }
 `
 
 type mockSetup struct {
@@ -137,6 +154,8 @@ func buildMocker(ex *exec.Exec, env *Env, pkgs map[string]*types.Package, mode s
 			return &MPkg{Name: ms.srcName, Path: ms.srcPath, Tag: "src"}
 		case "src.example/p/q":
 			return &MPkg{Name: qname, Path: qpath, Tag: "q"}
+		case "src.example/r/q":
+			return &MPkg{Name: c.StrC("q"), Path: c.StrC("src.example/r/q"), Tag: "q2"}
 		}
 		return nil
 	}
@@ -211,6 +230,7 @@ type tMock struct {
 	TypeParams              []tParam
 }
 type tMethod struct {
+	Raw             exec.Value
 	Name            *smt.Term
 	Params, Returns []tParam
 }
@@ -260,7 +280,7 @@ func readData(ex *exec.Exec, repo *Repo, v exec.Value) *tData {
 		tmk := tMock{InterfaceName: m.F[fieldIndex(mt, "InterfaceName")].(*smt.Term), MockName: m.F[fieldIndex(mt, "MockName")].(*smt.Term)}
 		for _, mdv := range ex.SliceElems(m.F[fieldIndex(mt, "Methods")]) {
 			md := mdv.(*exec.Struct)
-			tme := tMethod{Name: md.F[fieldIndex(me, "Name")].(*smt.Term)}
+			tme := tMethod{Raw: md, Name: md.F[fieldIndex(me, "Name")].(*smt.Term)}
 			for _, pv := range ex.SliceElems(md.F[fieldIndex(me, "Params")]) {
 				tme.Params = append(tme.Params, readParam(ex, repo, pv))
 			}
@@ -317,7 +337,7 @@ func HMock(props ...string) *Harness {
 			"text/template Execute is an uninterpreted function T(data) with a symbolic failure flag; it writes only to the buffer it is given",
 			"go/format.Source and imports.Process are uninterpreted functions G, I with symbolic failure flags",
 			"the io.Writer given to Mock fails or succeeds nondeterministically on each call",
-			"source package = model scope with 5 objects (two interfaces, a generic interface, an interface using a local type, a struct) whose names are symbolic and pairwise distinct",
+			"source package = model scope with 7 objects (interfaces incl. a variadic method, an empty one, a generic one, one using a local type, one embedding an interface of a helper package that brings in a second package named like the first, an alias of an instantiated generic interface, and a struct) whose names are symbolic and pairwise distinct",
 		},
 		Outside: []string{"more than 3 interface arguments", "names longer than the bound", "what text/template does with the data (L2)"},
 		Confirm: mockConfirm,
@@ -328,7 +348,7 @@ func HMock(props ...string) *Harness {
 			maxK, bound = 3, 8
 		}
 		hh.Bounds = []string{fmt.Sprintf("k ≤ %d arguments (symbolic strings), identifiers and path segments ≤ %d chars, destination modes {same, unknown, other}", maxK, bound)}
-		pkgs, _, err := TypeCheck([]SrcPkg{{"src.example/p/q", mockShapeDep}, {"src.example/src", mockShapeSrc}})
+		pkgs, _, err := TypeCheck([]SrcPkg{{"src.example/p/q", mockShapeDep}, {"src.example/r/q", mockShapeDep2}, {"src.example/h", mockShapeHelper}, {"src.example/src", mockShapeSrc}})
 		if err != nil {
 			panic(err)
 		}
@@ -426,7 +446,7 @@ func runMock(ic *IC, ex *exec.Exec, env *Env, fn exec.Value, pkgs map[string]*ty
 	})
 
 	// reference: which scope object each argument names
-	ifaceObjs := []string{"I1", "I2", "G", "L"}
+	ifaceObjs := []string{"I1", "I2", "G", "L", "K", "AG", "SO", "Cmp"}
 	var wantI, wantM []*smt.Term
 	var found []*smt.Term
 	for _, np := range nps {
@@ -541,7 +561,7 @@ func runMock(ic *IC, ex *exec.Exec, env *Env, fn exec.Value, pkgs map[string]*ty
 			ex.Fail("C20: cannot determine which interface argument " + fmt.Sprint(i) + " resolved to")
 			continue
 		}
-		if obj.Tag == "L" {
+		if obj.Tag == "L" || obj.Tag == "SO" { // L's signature and SO's constraint mention a source-package type
 			usesSrcType = true
 		}
 		iface := obj.Typ.Underlying()
@@ -591,6 +611,14 @@ func runMock(ic *IC, ex *exec.Exec, env *Env, fn exec.Value, pkgs map[string]*ty
 		}
 		if len(got.TypeParams) != ntp {
 			okAll = false
+		}
+		if len(got.TypeParams) != ntp {
+			ex.Fail(fmt.Sprintf("C09: mock %d has %d type parameters, the looked-up interface %s has %d", i, len(got.TypeParams), obj.Tag, ntp))
+		} else {
+			ex.Pass("C09: the mock has the interface's number of type parameters, in order")
+		}
+		if len(got.Methods) == len(iface.AllMethods) {
+			checkSignatures(ex, env, ms, d, got, iface, i)
 		}
 		if okAll {
 			ex.Pass(fmt.Sprintf("C02/C20: mock %d wraps exactly the methods, parameters, results and type parameters of %s, in order", i, obj.Tag))
@@ -668,7 +696,9 @@ func mockCLICase(m map[string]string, k int, mode string) *CLICase {
 	files := map[string]string{
 		"go.mod":   "module src.example\n\ngo 1.21\n",
 		"p/q/q.go": "package q\n\ntype T struct{}\n",
-		"src/x.go": fmt.Sprintf("package %s\n\nimport \"src.example/p/q\"\n\ntype %s interface {\n\tM0()\n\tM1(a q.T, b int) error\n}\ntype %s interface{}\ntype %s[T any] interface{ Get(k T) T }\ntype %s struct{}\ntype %s interface{ Do(x %s) }\n", src, I1, I2, G, S, L, S),
+		"r/q/q.go": "package q\n\ntype T struct{}\n",
+		"h/h.go":   "package h\n\nimport \"src.example/r/q\"\n\ntype J interface{ Zed(x q.T) }\n",
+		"src/x.go": fmt.Sprintf("package %s\n\nimport (\n\t\"src.example/h\"\n\t\"src.example/p/q\"\n)\n\ntype %s interface {\n\tM0()\n\tM1(a q.T, b int) error\n\tM2(first q.T, rest ...q.T)\n}\ntype %s interface{}\ntype %s[T any] interface{ Get(k T) T }\ntype %s struct{}\ntype %s interface{ Do(x %s) }\ntype %s interface{ h.J }\ntype %s = %s[int]\ntype %s[T any] interface{ Less(o T) bool }\ntype %s[T %s[T]] interface{ Min() T }\n", src, I1, I2, G, S, L, S, name("K", "K"), name("AG", "AG"), G, name("Cmp", "Cmp"), name("SO", "SO"), name("Cmp", "Cmp")),
 	}
 	var args []string
 	pkg := m["cfg_PkgName"]
@@ -723,5 +753,81 @@ func mockUnwinding(ic *IC, st *exec.Stats, k int, mode string) {
 		v := Violation{Property: "C19", Harness: ic.H.ID, Instance: ic.Name, Label: "non-termination: " + u.Msg, Model: u.Model, Key: key, Props: []string{"C11"}}
 		ic.replayCLI(&v, cs)
 		ic.addViol(v)
+	}
+}
+
+// checkSignatures (C02): the strings the template prints for a method — ArgList, ReturnArgTypeList,
+// ArgCallList, evaluated by the real renderers from SSA at template time, i.e. after every import and
+// alias is final — equal an independent rendering of the interface method's go/types signature
+// under the final qualifiers.
+func checkSignatures(ex *exec.Exec, env *Env, ms *mockSetup, d *tData, got tMock, iface *MType, i int) {
+	c := ex.C
+	repo := env.Repo
+	qfRef := &exec.Native{Name: "reference qualifier", F: func(ex *exec.Exec, args []exec.Value) exec.Value {
+		p := args[0].(*MPkg)
+		if !(ms.moqPath.IsConst && ms.moqPath.S == "") && p.Path == ms.moqPath {
+			return c.StrC("")
+		}
+		for _, e := range d.Imports {
+			if e.Pkg == p || (e.Pkg != nil && e.Pkg.Path == p.Path) {
+				return qualifierOf(ex, e)
+			}
+		}
+		ex.Fail("C11/C02: a package a signature mentions (" + p.Tag + ") is not in the import list")
+		return c.StrC("")
+	}}
+	argList := repo.Method(pkgTemplate, "MethodData", "ArgList")
+	retList := repo.Method(pkgTemplate, "MethodData", "ReturnArgTypeList")
+	callList := repo.Method(pkgTemplate, "MethodData", "ArgCallList")
+	for j, m := range iface.AllMethods {
+		gm := got.Methods[j]
+		sig := m.Typ
+		var wantArgs, wantCall, wantRets []*smt.Term
+		n := len(sig.Params.Vars)
+		if len(gm.Params) != n || len(gm.Returns) != len(sig.Results.Vars) {
+			continue
+		}
+		for p, v := range sig.Params.Vars {
+			variadic := p == n-1 && sig.Variadic.IsConst && sig.Variadic.B && v.Typ.K == "Slice"
+			if p > 0 {
+				wantArgs = append(wantArgs, c.StrC(", "))
+				wantCall = append(wantCall, c.StrC(", "))
+			}
+			if variadic {
+				wantArgs = append(wantArgs, gm.Params[p].Name, c.StrC(" ..."), ms.tm.TypeString(ex, v.Typ.Elem, qfRef))
+				wantCall = append(wantCall, gm.Params[p].Name, c.StrC("..."))
+			} else {
+				wantArgs = append(wantArgs, gm.Params[p].Name, c.StrC(" "), ms.tm.TypeString(ex, v.Typ, qfRef))
+				wantCall = append(wantCall, gm.Params[p].Name)
+			}
+		}
+		for r, v := range sig.Results.Vars {
+			if r > 0 {
+				wantRets = append(wantRets, c.StrC(", "))
+			}
+			wantRets = append(wantRets, ms.tm.TypeString(ex, v.Typ, qfRef))
+		}
+		wr := c.Concat(wantRets...)
+		if len(sig.Results.Vars) > 1 {
+			wr = c.Concat(c.StrC("("), wr, c.StrC(")"))
+		}
+		a, pan := ex.CallCatch(argList, []exec.Value{gm.Raw})
+		if pan != nil {
+			ex.Fail("C19/C02: ArgList panics: " + pan.Msg)
+			continue
+		}
+		r, pan := ex.CallCatch(retList, []exec.Value{gm.Raw})
+		if pan != nil {
+			ex.Fail("C19/C02: ReturnArgTypeList panics: " + pan.Msg)
+			continue
+		}
+		cl, pan := ex.CallCatch(callList, []exec.Value{gm.Raw})
+		if pan != nil {
+			ex.Fail("C19/C02: ArgCallList panics: " + pan.Msg)
+			continue
+		}
+		ex.Oblige(c.Eq(a.(*smt.Term), c.Concat(wantArgs...)), fmt.Sprintf("C02: mock %d method %d: the printed parameter list is the interface method's signature under the final import qualifiers (variadic tail as ...T)", i, j))
+		ex.Oblige(c.Eq(r.(*smt.Term), wr), fmt.Sprintf("C02: mock %d method %d: the printed result list is the interface method's result types under the final qualifiers", i, j))
+		ex.Oblige(c.Eq(cl.(*smt.Term), c.Concat(wantCall...)), fmt.Sprintf("C03/C02: mock %d method %d: the delegation passes the parameters in order, spreading the variadic tail", i, j))
 	}
 }
